@@ -18,12 +18,19 @@ from harness.common.vmachine import VMachine, BootError
 ID = "C20"
 LEAN_MODULES = ["MpfVerif.Props.C20"]
 PROPS_FILE = "MpfVerif/Props/C20.lean"
-GEN = []
+
+
+def _gen_credits():
+    from translate import credits_gen
+    return credits_gen.generate()
+
+
+GEN = [_gen_credits]
 MANIFEST = {
-    "text": "Proof on an integer credit-unit Lean model of the credits mode (unit and pricing-table calculation, _add_credit_units with cap and tier bonus, start / player-add gate, deduction, fractional and full expiration, free-play switching, service credits, credit events, audits): for every well-formed price/tier/coin/max configuration and every history of coins, service credits, credit events, start requests, ball and game ends, clock advances, play-mode toggles and resets, 0 <= balance <= max_credits * units per game after every step; a game or player starts in credit play only with a full price available and deducts exactly that; the earnings audits equal the coins accepted; and the balance obeys the ledger coins + tier bonus + granted credits - price * paid games - (capped or expired units). The hand model is tied to credits.py by a correspondence run on the real credits mode of a real machine (balance, tier counter, strings, game/player state, delays, audits compared after every op) and the property's clauses are recomputed independently from each op history.",
-    "note": "Trusted: Lean kernel + standard axioms; the hand-written Model/Credits.lean (validated only by the differential run: no part of credits.py is machine-translated - _add_credit_units needs a loop, augmented attribute assignment and dict lookup, outside the translator subset); float arithmetic is exact only when prices and coin values are whole multiples of the credit unit and dyadic (0.25 steps): other configurations are counted as outside the model. Not modelled: persistence of credit_units across power cycles, coin inhibit output, settings-menu changes of prices, extra balls, replay award via a conditional game_ending event.",
-    "technique": "Lean 4 theorems (invariants by induction over the op list, omega) on a hand model + differential correspondence and an independent rational-arithmetic oracle on the real credits mode",
-    "translated": False,
+    "text": "Proof on an integer credit-unit Lean model of the credits mode (unit and pricing-table calculation, _add_credit_units with cap and tier bonus, start / player-add gate, deduction, fractional and full expiration, free-play switching, service credits, credit events, audits): for every well-formed price/tier/coin/max configuration and every history of coins, service credits, credit events, start requests, ball and game ends, clock advances, play-mode toggles and resets, 0 <= balance <= max_credits * units per game after every step; a game or player starts in credit play only with a full price available and deducts exactly that; the earnings audits equal the coins accepted; the balance obeys the ledger coins + tier bonus + granted credits - deducted prices - (capped or expired units); the unit-by-unit bonus loop grants exactly the cumulative tier bonus. The three integer decision kernels (cap-and-store of _add_credit_units, _clear_fractional_credits, the deduction of _player_added) are regenerated from credits.py on every run and proved equal to what the model computes; the rest of the hand model is tied by a correspondence run on the real credits mode of a real machine (balance, tier counter, strings, game/player state, delays, audits compared after every op), and the property's clauses are recomputed independently from each op history.",
+    "note": "Trusted: Lean kernel + standard axioms; translate/credits_gen.py (Python ast -> straight-line Lean Int code; Python % = Int.emod for a positive divisor); the hand-written rest of Model/Credits.lean (pricing-tier loop, unit calculation, gate, timers: validated only by the differential run - the loop with its attribute counter and dict lookup is outside the translator subset); float arithmetic is exact only when prices and coin values are whole multiples of the credit unit and dyadic (0.25 steps): other configurations are counted as outside the model. Not modelled: persistence of credit_units across power cycles, coin inhibit output, settings-menu changes of prices, extra balls, replay award via a conditional game_ending event.",
+    "technique": "Lean 4 theorems (invariants by induction over the op list, omega) on a hand model whose integer kernels are machine-translated from the source on every run + differential correspondence and an independent rational-arithmetic oracle on the real credits mode",
+    "translated": True,
 }
 RULE = ("a case = one credits configuration (price, 0-3 coin switches, 0-3 pricing tiers incl. one cheaper than its "
         "predecessor, max_credits incl. 0, expiration times, boot in free or credit play; the two price configurations "
@@ -56,6 +63,16 @@ def money(cents):
 
 
 def gen_cfg(r):
+    """up to three draws: configurations whose credit unit does not divide every value are outside the model (counted,
+    not run), so most of the budget should go to the ones inside it"""
+    for _ in range(3):
+        cfg = gen_cfg_once(r)
+        if ref_units(cfg)[2]:
+            break
+    return cfg
+
+
+def gen_cfg_once(r):
     k = r.random()
     if k < 0.3:
         base = dict(r.choice(SUITE_CONFIGS))
